@@ -11,18 +11,23 @@
 (*   MCSeq_s64 / MCSeq_s256  scaled modulus (M, W) = (64, 4), (256, 16):   *)
 (*        ALL pairs (and all triples within a window), every lemma a named *)
 (*        invariant of its own.                                            *)
-(*   MCSeq (thorough) / MCSeq_quick   the REAL constants M = 65536,        *)
-(*        W = 1024 (hard-wired in the cfg): every a (quick: a              *)
-(*        boundary-dense subset of ~7k values) against every b whose true  *)
-(*        distance is within the tolerance (2049 values) plus a band of    *)
+(*   MCSeq_quick  the REAL constants M = 65536, W = 1024 (hard-wired in the  *)
+(*        cfg), a boundary-dense subset of ~7k a's, each against every b   *)
+(*        whose true distance is within the tolerance (2049 values) plus   *)
 (*        `Band` values just outside on both sides plus far / antipodal    *)
-(*        b's.  All 65536 x 65536 pairs are out of TLC's reach; the        *)
-(*        complete function is emitted as a table over (d, lt) instead     *)
-(*        (EmitTable) and the implementation is compared with the table on *)
-(*        all 2^32 pairs by unit_seq `table`; that Offset depends on       *)
-(*        (d, lt) only is the lemma DependsOnDLt, checked here on all      *)
-(*        pairs of the scaled instances and on the sample of the real one  *)
-(*        (and for all pairs symbolically by Apalache, SeqArithApa.tla).   *)
+(*        b's: OffsetAgreesCore (OffsetAgrees + ClosedForm in one pass);   *)
+(*        AllLemmas (every lemma incl. DependsOnDLt) on the ~1200 `Heavy`  *)
+(*        a's; NegativeWitness; EmitAll writes the table and the cases.    *)
+(*   MCSeq (thorough)  the same for ALL 65536 a's, DependsOnDLt on every   *)
+(*        pair (CoreDLt = TRUE).  Run without -coverage (factor > 8).      *)
+(*                                                                         *)
+(* All 65536 x 65536 pairs are out of TLC's reach; the complete function   *)
+(* is emitted as a table over (d, lt) = ((a - b) % M, a < b) instead       *)
+(* (Table) and the implementation is compared with the table on all 2^32   *)
+(* pairs by unit_seq `table`.  That Offset depends on (d, lt) only is the  *)
+(* lemma DependsOnDLt, checked here on all pairs of the scaled instances   *)
+(* and on the sample of the real one (and for all pairs symbolically by    *)
+(* Apalache, SeqArithApa.tla).                                             *)
 (*                                                                         *)
 (* The state variable a is the sequence number whose pairs are checked.    *)
 (* Initial states are `Chunks` roots (a = -1 - c); the successors of root  *)
